@@ -307,8 +307,7 @@ theorem observed_columns_ok (ext : Ext) (sep : Char) (naRep : Str) (t : TableVal
     (match (observe t).columns with
      | [] => True
      | c :: cs => cs.all (fun d => d.length = c.length) = true ∧
-        (c.length > 0 && (observe t).columns.any
-          (fun d => match d with | .dt xs => !dtHomogeneous xs | _ => false)) = false) := by
+        (c.length > 0 && (observe t).columns.any ColVals.dtInhomogeneous) = false) := by
   unfold observe
   simp only []
   cases hcols : t.columns with
@@ -325,7 +324,7 @@ theorem observed_columns_ok (ext : Ext) (sep : Char) (naRep : Str) (t : TableVal
             hwf.sameLen c0 (by rw [hcols]; simp)]
     · have hany : ((if t.nRows = 0 then ColVals.raw else obsCol c0.unit c0.values) ::
           cs0.map (fun c => if t.nRows = 0 then ColVals.raw else obsCol c.unit c.values)).any
-          (fun d => match d with | .dt xs => !dtHomogeneous xs | _ => false) = false := by
+          ColVals.dtInhomogeneous = false := by
         rw [List.any_eq_false]
         intro d hd
         have : ∃ c ∈ t.columns, d = (if t.nRows = 0 then ColVals.raw else obsCol c.unit c.values) := by
@@ -336,14 +335,14 @@ theorem observed_columns_ok (ext : Ext) (sep : Char) (naRep : Str) (t : TableVal
             exact ⟨c, List.mem_cons_of_mem _ hc, rfl⟩
         obtain ⟨c, hc, rfl⟩ := this
         by_cases h0 : t.nRows = 0
-        · simp [h0]
+        · simp [h0, ColVals.dtInhomogeneous]
         · simp only [h0, if_false]
           unfold obsCol
           by_cases h1 : c.unit = uText
-          · rw [if_pos h1]; simp
+          · rw [if_pos h1]; simp [ColVals.dtInhomogeneous]
           · rw [if_neg h1]
             by_cases h2 : c.unit = uOnoff
-            · rw [if_pos h2]; simp
+            · rw [if_pos h2]; simp [ColVals.dtInhomogeneous]
             · rw [if_neg h2]
               by_cases h3 : c.unit = uDatetime
               · rw [if_pos h3]
@@ -353,8 +352,8 @@ theorem observed_columns_ok (ext : Ext) (sep : Char) (naRep : Str) (t : TableVal
                     cases v with
                     | dt tok => exact hwf.dtNaive c hc (.dt tok) hv tok rfl
                     | _ => simp [dtOf] at hne)
-                simp [this]
-              · rw [if_neg h3]; simp
+                simp [ColVals.dtInhomogeneous, this]
+              · rw [if_neg h3]; simp [ColVals.dtInhomogeneous]
       simp [hany]
 
 theorem dataRowsM_eq_nil (naRep : Str) (t : TableVal) : dataRowsM naRep t = [] ↔ t.nRows = 0 := by
@@ -366,20 +365,51 @@ theorem makeTable_ok (ext : Ext) (cells : List Row) (f : Fixer) (p : Precursor) 
     (hcols : match p.columns with
      | [] => True
      | c :: cs => cs.all (fun d => d.length = c.length) = true ∧
-        (c.length > 0 && p.columns.any
-          (fun d => match d with | .dt xs => !dtHomogeneous xs | _ => false)) = false) :
+        (c.length > 0 && p.columns.any ColVals.dtInhomogeneous) = false) :
     makeTable ext cells f = .ok (p, f') := by
   unfold makeTable
   rw [hp]
   simp only [bind, Except.bind]
-  cases hcs : p.columns with
-  | nil => rfl
-  | cons c cs =>
+  split
+  · rfl
+  · rename_i c cs hcs
     rw [hcs] at hcols
-    simp only [hcols.1, Bool.not_true, Bool.false_eq_true, if_false]
+    have h1 := hcols.1
     have h2 := hcols.2
-    simp only [h2, Bool.false_eq_true, if_false]
+    rw [← hcs] at h2
+    simp only [h1, h2, Bool.not_true, Bool.false_eq_true, if_false]
     rfl
+
+/-- once the header and grid slicing deliver the table's own names, units and rendered value matrix, the rest
+    of the reader (no repair, column parsing, DataFrame checks) returns the table -/
+theorem makeTable_of_layout (ext : Ext) (sep : Char) (naRep : Str) (t : TableVal) (hwf : WF ext sep naRep t)
+    (f : Fixer) (hf : f.errors = 0 ∧ f.warnings = 0)
+    (hlay : layout (tableRows naRep t) = .ok
+      ⟨t.name, t.transposed, t.destinations, t.columns.map (·.name), t.columns.map (·.unit), dataRowsM naRep t⟩) :
+    makeTable ext (tableRows naRep t) f = .ok (observe t, f) := by
+  apply makeTable_ok _ _ _ _ _ _ (observed_columns_ok ext sep naRep t hwf)
+  unfold makePrecursor
+  rw [hlay]
+  simp only [bind, Except.bind]
+  rw [finish_clean ext _ f (t.columns.map (fun c => obsCol c.unit c.values))
+    (by simpa using hwf.namesNodup)
+    (by
+      intro r hr
+      obtain ⟨i, _, rfl⟩ := List.mem_map.1 hr
+      simp)
+    hf
+    (by
+      intro _
+      simp only [List.length_map]
+      rw [transposeN_dataRowsM]
+      exact ⟨parse_colCells ext sep naRep t hwf f, by simp⟩)]
+  congr 2
+  unfold observe
+  congr 1
+  by_cases h0 : t.nRows = 0
+  · simp [(dataRowsM_eq_nil naRep t).2 h0, h0, List.map_const']
+  · have : dataRowsM naRep t ≠ [] := fun e => h0 ((dataRowsM_eq_nil naRep t).1 e)
+    simp [this, h0]
 
 /-- **stage C, row-wise**: the reader core returns a written row-wise table as it was -/
 theorem makeTable_rowwise (ext : Ext) (sep : Char) (naRep : Str) (t : TableVal) (hwf : WF ext sep naRep t)
@@ -425,29 +455,473 @@ theorem makeTable_rowwise (ext : Ext) (sep : Char) (naRep : Str) (t : TableVal) 
       obtain ⟨i, _, rfl⟩ := List.mem_map.1 hr
       exact List.take_of_length_le (by simp)
     rw [hdata]
-  apply makeTable_ok _ _ _ _ _ _ (observed_columns_ok ext sep naRep t hwf)
-  unfold makePrecursor
-  rw [hlay]
-  simp only [bind, Except.bind]
-  rw [finish_clean ext _ f (t.columns.map (fun c => obsCol c.unit c.values))
-    (by simpa using hwf.namesNodup)
-    (by
-      intro r hr
-      obtain ⟨i, _, rfl⟩ := List.mem_map.1 hr
-      simp)
-    hf
-    (by
-      intro _
-      simp only [List.length_map]
-      rw [transposeN_dataRowsM]
-      exact ⟨parse_colCells ext sep naRep t hwf f, by simp⟩)]
+  exact makeTable_of_layout ext sep naRep t hwf f hf (by rw [hlay, h])
+
+/-! ## 5. stage C, transposed tables -/
+
+/-- the value cells of line `j` of a transposed table in matrix form -/
+def lineVals (naRep : Str) (t : TableVal) (j : Nat) : Row := (List.range t.nRows).map (fun i => cellM naRep t i j)
+
+theorem colTexts_matrix (naRep : Str) (t : TableVal) (h : t.transposed = true) (j : Nat) (hj : j < t.columns.length)
+    (hlen : (t.columns.getD j dCol).values.length = t.nRows) :
+    strRow (colTexts naRep (t.columns.getD j dCol)) = lineVals naRep t j := by
+  unfold strRow colTexts lineVals
+  rw [List.map_map, zipIdx_map_eq_range _ (.text []), hlen]
+  apply List.map_congr_left
+  intro i _
+  simp [cellM, cellAt, h, Function.comp]
+
+/-- a transposed line as read: name, unit, then the values (one empty cell if there are none) -/
+def lineRow (naRep : Str) (t : TableVal) (j : Nat) : Row :=
+  .str (t.columns.getD j dCol).name :: .str (t.columns.getD j dCol).unit ::
+    (if t.nRows = 0 then [.str []] else lineVals naRep t j)
+
+theorem tableRows_transposed (naRep : Str) (t : TableVal) (h : t.transposed = true)
+    (hlen : ∀ c ∈ t.columns, c.values.length = t.nRows) :
+    tableRows naRep t = hdrRow t :: destRow t :: (List.range t.columns.length).map (lineRow naRep t) := by
+  unfold tableRows tableCells
+  simp only [h, if_true, List.map_append, List.map_cons, List.map_nil, List.cons_append, List.nil_append,
+    List.map_map]
+  simp only [hdrRow, destRow, strRow, readCells, List.map_cons, List.map_nil]
   congr 2
-  unfold observe
-  rw [h]
-  congr 1
+  rw [← zipIdx_map_eq_range t.columns dCol (fun p => lineRow naRep t p.2)]
+  have : ∀ (l : List Column) (g : Column → Row) (g' : Column × Nat → Row),
+      (∀ p ∈ l.zipIdx, g p.1 = g' p) → l.map g = l.zipIdx.map g' := by
+    intro l g g' hg
+    conv => lhs; rw [← C02.map_fst_zipIdx l 0]
+    rw [List.map_map]
+    exact List.map_congr_left hg
+  apply this
+  intro p hp
+  have hp' := List.mem_zipIdx_iff_getElem?.1 hp
+  have hj : p.2 < t.columns.length := by
+    have := List.getElem?_eq_some_iff.1 hp'
+    exact this.1
+  have hget : t.columns.getD p.2 dCol = p.1 := by
+    simp [List.getD_eq_getElem?_getD, hp']
+  have hc : p.1 ∈ t.columns := by
+    have := List.getElem?_eq_some_iff.1 hp'
+    rw [← this.2]; exact List.getElem_mem _
+  simp only [Function.comp, lineRow, hget]
+  have hm := colTexts_matrix naRep t h p.2 hj (by rw [hget]; exact hlen p.1 hc)
+  rw [hget] at hm
   by_cases h0 : t.nRows = 0
-  · simp [(dataRowsM_eq_nil naRep t).2 h0, h0, List.map_const']
-  · have : dataRowsM naRep t ≠ [] := fun e => h0 ((dataRowsM_eq_nil naRep t).1 e)
-    simp [this, h0]
+  · have hv : p.1.values = [] := by
+      have := hlen p.1 hc; rw [h0] at this; exact List.length_eq_zero_iff.1 this
+    simp [h0, colTexts, hv, readCells]
+  · have hne : colTexts naRep p.1 ≠ [] := by
+      intro e
+      have := congrArg List.length hm
+      simp [strRow, e, lineVals] at this
+      exact h0 this.symm
+    simp only [h0, if_false]
+    cases hct : colTexts naRep p.1 with
+    | nil => exact absurd hct hne
+    | cons x xs =>
+      simp only [readCells, List.map_cons]
+      rw [hct] at hm
+      simp only [strRow, List.map_cons] at hm
+      rw [← hm]
+
+theorem foldl_max_const (n : Nat) (lines : List Row) (m0 : Nat) (h : ∀ l ∈ lines, l.length = n) (hm : m0 ≤ n)
+    (hne : lines ≠ []) : lines.foldl (fun m l => max m l.length) m0 = n := by
+  induction lines generalizing m0 with
+  | nil => exact absurd rfl hne
+  | cons l ls ih =>
+    simp only [List.foldl_cons]
+    have hl := h l (by simp)
+    cases ls with
+    | nil => simp [hl]; omega
+    | cons l2 ls2 =>
+      exact ih (max m0 l.length) (fun x hx => h x (List.mem_cons_of_mem _ hx)) (by rw [hl]; omega) (by simp)
+
+/-- the row-count detection runs through all `n` rows when each of them has a non-blank cell somewhere -/
+theorem nRowLoop_full (lines : List Row) (n : Nat)
+    (h : ∀ i, i < n → lines.any (fun l => i < l.length && !(getD0 l i).isBlank) = true) :
+    ∀ fuel i, i + fuel = n → nRowLoop lines n i fuel = n := by
+  intro fuel
+  induction fuel with
+  | zero => intro i hi; simp [nRowLoop]; omega
+  | succ k ih =>
+    intro i hi
+    have hlt : i < n := by omega
+    unfold nRowLoop
+    simp only [hlt, decide_true, Bool.true_and, h i hlt, if_true]
+    exact ih (i + 1) (by omega)
+
+theorem names_parse (ext : Ext) (sep : Char) (naRep : Str) (t : TableVal) (hwf : WF ext sep naRep t) :
+    parseColumnNames (strRow (t.columns.map (·.name))) = .ok (t.columns.map (·.name)) := by
+  have := (C02.names_until_first_blank (t.columns.map (·.name)) .none []
+    (by intro s hs; obtain ⟨c, hc', rfl⟩ := List.mem_map.1 hs; exact (hwf.namesOK c hc').1) rfl).2
+  unfold strRow
+  rw [this]
+  congr 1
+  rw [List.map_map]
+  conv => rhs; rw [← List.map_id (t.columns.map (·.name))]
+  rw [List.map_map]
+  apply List.map_congr_left
+  intro c hc'
+  exact (hwf.namesOK c hc').2
+
+theorem units_strip (ext : Ext) (sep : Char) (naRep : Str) (t : TableVal) (hwf : WF ext sep naRep t) :
+    (strRow (t.columns.map (·.unit))).map stripOfStr = t.columns.map (·.unit) := by
+  unfold strRow
+  rw [List.map_map, List.map_map]
+  apply List.map_congr_left
+  intro c hc'
+  simp [Function.comp, stripOfStr, hwf.unitsOK c hc']
+
+theorem map_getD_col {β} (t : TableVal) (g : Column → β) :
+    (List.range t.columns.length).map (fun j => g (t.columns.getD j dCol)) = t.columns.map g := by
+  rw [← map_range_getD t.columns dCol g]
+
+/-- the value lines of a written transposed table zip back into its value rows -/
+theorem transposedRows_lines (ext : Ext) (sep : Char) (naRep : Str) (t : TableVal) (hwf : WF ext sep naRep t)
+    (h : t.transposed = true) (hc : t.columns ≠ []) :
+    transposedRows ((List.range t.columns.length).map
+      (fun j => if t.nRows = 0 then [Cell.str []] else lineVals naRep t j)) = .ok (dataRowsM naRep t) := by
+  have hpos : 0 < t.columns.length := List.length_pos_iff.2 hc
+  have hne : (List.range t.columns.length).map
+      (fun j => if t.nRows = 0 then [Cell.str []] else lineVals naRep t j) ≠ [] := by
+    simp; omega
+  unfold transposedRows
+  split
+  · rename_i heq; exact absurd heq hne
+  · rename_i heq
+    clear heq
+    by_cases h0 : t.nRows = 0
+    · simp only [h0, if_true]
+      have hl : ((List.range t.columns.length).map (fun _ => [Cell.str []])).foldl
+          (fun m l => max m l.length) 0 = 1 :=
+        foldl_max_const 1 _ 0 (by intro l hl; obtain ⟨_, _, rfl⟩ := List.mem_map.1 hl; rfl) (by omega)
+          (by simp; omega)
+      rw [hl]
+      have hloop : nRowLoop ((List.range t.columns.length).map (fun _ => [Cell.str []])) 1 0 1 = 0 := by
+        unfold nRowLoop
+        have : ((List.range t.columns.length).map (fun _ => [Cell.str []])).any
+            (fun l => 0 < l.length && !(getD0 l 0).isBlank) = false := by
+          rw [List.any_eq_false]
+          intro l hl
+          obtain ⟨_, _, rfl⟩ := List.mem_map.1 hl
+          simp [getD0, Cell.isBlank, allSpace]
+        simp [this]
+      rw [hloop]
+      simp [transposeN, dataRowsM, h0]
+    · simp only [h0, if_false]
+      have hlen : ∀ l ∈ (List.range t.columns.length).map (lineVals naRep t), l.length = t.nRows := by
+        intro l hl; obtain ⟨j, _, rfl⟩ := List.mem_map.1 hl; simp [lineVals]
+      have hl : ((List.range t.columns.length).map (lineVals naRep t)).foldl
+          (fun m l => max m l.length) 0 = t.nRows :=
+        foldl_max_const t.nRows _ 0 hlen (by omega) (by simp; omega)
+      rw [hl]
+      have hloop := nRowLoop_full ((List.range t.columns.length).map (lineVals naRep t)) t.nRows (by
+        intro i hi
+        obtain ⟨p, hp, hnb⟩ := hwf.rowsNonBlank h i hi
+        have hp' := List.mem_zipIdx_iff_getElem?.1 hp
+        have hj : p.2 < t.columns.length := (List.getElem?_eq_some_iff.1 hp').1
+        have hget : t.columns.getD p.2 dCol = p.1 := by simp [List.getD_eq_getElem?_getD, hp']
+        rw [List.any_eq_true]
+        refine ⟨lineVals naRep t p.2, List.mem_map.2 ⟨p.2, by simpa using hj, rfl⟩, ?_⟩
+        have hg : getD0 (lineVals naRep t p.2) i = cellM naRep t i p.2 := getD0_map_range t.nRows _ i hi
+        simp only [lineVals, List.length_map, List.length_range, hi, decide_true, Bool.true_and]
+        have : getD0 ((List.range t.nRows).map (fun i => cellM naRep t i p.2)) i = cellM naRep t i p.2 := hg
+        rw [this]
+        show (!(Cell.str (cellAt naRep t (t.columns.getD p.2 dCol) p.2 i)).isBlank) = true
+        rw [hget]
+        simp [Cell.isBlank, hnb]) t.nRows 0 (by omega)
+      rw [hloop]
+      have hpad : ((List.range t.columns.length).map (lineVals naRep t)).map (padOrTrim t.nRows) =
+          (List.range t.columns.length).map (lineVals naRep t) := by
+        conv => rhs; rw [← List.map_id ((List.range t.columns.length).map (lineVals naRep t))]
+        apply List.map_congr_left
+        intro l hl
+        have := hlen l hl
+        simp only [padOrTrim, this, ge_iff_le, Nat.le_refl, if_true, id]
+        exact List.take_of_length_le (by omega)
+      rw [hpad]
+      exact congrArg Except.ok (transposeN_matrix t.columns.length t.nRows (fun j i => cellM naRep t i j))
+
+theorem header_drop_transposed (t : TableVal) (h : t.transposed = true) :
+    (header t).drop 2 = t.name ++ ['*'] := by
+  simp [header, h]
+
+/-- **stage C, transposed**: the reader core returns a written transposed table as it was -/
+theorem makeTable_transposed (ext : Ext) (sep : Char) (naRep : Str) (t : TableVal) (hwf : WF ext sep naRep t)
+    (h : t.transposed = true) (hc : t.columns ≠ []) (f : Fixer) (hf : f.errors = 0 ∧ f.warnings = 0) :
+    makeTable ext (tableRows naRep t) f = .ok (observe t, f) := by
+  apply makeTable_of_layout ext sep naRep t hwf f hf
+  rw [tableRows_transposed naRep t h hwf.sameLen]
+  have hpos : 0 < t.columns.length := List.length_pos_iff.2 hc
+  obtain ⟨l0, lines, hls⟩ := List.exists_cons_of_ne_nil
+    (show (List.range t.columns.length).map (lineRow naRep t) ≠ [] by simp; omega)
+  rw [hls]
+  unfold hdrRow destRow
+  have hstar : ((header t).drop 2).getLast? = some '*' := by rw [header_drop_transposed t h]; simp
+  rw [C02.layout_transposed (header t) [.str []] (.str (joinStr [' '] t.destinations)) [] l0 lines hstar, ← hls]
+  have hany : ((List.range t.columns.length).map (lineRow naRep t)).any (fun l => decide (l.length < 2)) = false := by
+    rw [List.any_eq_false]
+    intro l hl
+    obtain ⟨j, _, rfl⟩ := List.mem_map.1 hl
+    simp [lineRow]
+  have hn0 : ((List.range t.columns.length).map (lineRow naRep t)).map (fun l => getD0 l 0) =
+      strRow (t.columns.map (·.name)) := by
+    rw [List.map_map]
+    unfold strRow
+    rw [List.map_map, ← map_getD_col t (Cell.str ∘ fun c => c.name)]
+    apply List.map_congr_left
+    intro j _
+    simp [Function.comp, lineRow, getD0]
+  have hu0 : ((List.range t.columns.length).map (lineRow naRep t)).map (fun l => getD0 l 1) =
+      strRow (t.columns.map (·.unit)) := by
+    rw [List.map_map]
+    unfold strRow
+    rw [List.map_map, ← map_getD_col t (Cell.str ∘ fun c => c.unit)]
+    apply List.map_congr_left
+    intro j _
+    simp [Function.comp, lineRow, getD0]
+  have hd0 : ((List.range t.columns.length).map (lineRow naRep t)).map (fun l => l.drop 2) =
+      (List.range t.columns.length).map
+        (fun j => if t.nRows = 0 then [Cell.str []] else lineVals naRep t j) := by
+    rw [List.map_map]
+    apply List.map_congr_left
+    intro j _
+    simp [Function.comp, lineRow]
+  have htk : ∀ {α} (l : List α), l.length = t.columns.length →
+      l.take (t.columns.map (·.name)).length = l := by
+    intro α l hl
+    exact List.take_of_length_le (by simp [hl])
+  simp only [hany, Bool.false_eq_true, if_false, hn0, names_parse ext sep naRep t hwf]
+  rw [htk _ (by simp), hu0]
+  have hall : (strRow (t.columns.map (·.unit))).all Cell.isStr = true := by simp [strRow, Cell.isStr]
+  simp only [hall, if_true, hd0, transposedRows_lines ext sep naRep t hwf h hc,
+    units_strip ext sep naRep t hwf, header_drop_transposed t h, hwf.destsBack, h]
+  simp
+
+/-! ## 6. tables without columns, and the block / blank-tail decomposition of the written rows -/
+
+/-- the rows that make up the block of a written table -/
+def blockRows (naRep : Str) (t : TableVal) : List Row :=
+  if t.columns = [] then [hdrRow t, destRow t] else tableRows naRep t
+
+/-- the blank rows that follow it -/
+def blanksAfter (t : TableVal) : List Row :=
+  (if t.columns = [] ∧ t.transposed = false then [blankRow, blankRow] else []) ++ tailBlanks t
+
+theorem rows_split (naRep : Str) (t : TableVal) :
+    tableRows naRep t ++ tailBlanks t = blockRows naRep t ++ blanksAfter t := by
+  unfold blockRows blanksAfter
+  by_cases hc : t.columns = []
+  · by_cases ht : t.transposed = true
+    · simp [hc, ht, tableRows, tableCells, hdrRow, destRow, strRow, readCells]
+    · have ht' : t.transposed = false := by simpa using ht
+      simp [hc, ht', tableRows, tableCells, hdrRow, destRow, strRow, readCells, blankRow, TableVal.nRows]
+  · simp [hc]
+
+theorem blanksAfter_cons (t : TableVal) : ∃ bs, blanksAfter t = blankRow :: bs ∧ ∀ b ∈ bs, b = blankRow := by
+  unfold blanksAfter tailBlanks
+  by_cases h1 : t.columns = [] ∧ t.transposed = false <;> by_cases h2 : dataEmpty t = true <;>
+    simp [h1, h2]
+
+theorem makeTable_empty (ext : Ext) (naRep : Str) (t : TableVal) (hc : t.columns = [])
+    (hstar : t.name.getLast? ≠ some '*') (hdest : destinations (.str (joinStr [' '] t.destinations)) = t.destinations)
+    (f : Fixer) (hf : f.errors = 0 ∧ f.warnings = 0) :
+    makeTable ext [hdrRow t, destRow t] f = .ok (observe t, f) := by
+  have hname : tableName [hdrRow t, destRow t] = .ok (t.name, t.transposed) := by
+    unfold hdrRow
+    rw [C02.name_and_orientation]
+    by_cases ht : t.transposed = true
+    · simp [header, ht]
+    · have ht' : t.transposed = false := by simpa using ht
+      simp [header, ht', hstar]
+  have hlay : layout [hdrRow t, destRow t] = .ok ⟨t.name, t.transposed, t.destinations, [], [], []⟩ := by
+    unfold layout
+    rw [hname]
+    simp only [bind, Except.bind, pure, Except.pure, destRow, hdrRow, hdest]
+    by_cases ht : t.transposed = true <;> simp [ht]
+  have hobs : observe t = ⟨t.name, t.transposed, t.destinations, [], [], []⟩ := by
+    simp [observe, hc]
+  apply makeTable_ok
+  · unfold makePrecursor
+    rw [hlay]
+    simp only [bind, Except.bind]
+    rw [finish_clean ext _ f [] (by simp) (by simp) hf (by simp)]
+    rw [hobs]
+    simp
+  · rw [hobs]; trivial
+
+/-! ## 7. stage B applied: the written rows are good chunks -/
+
+theorem rowKind_plain (s : Str) (rest : Row) (h : PlainText s) : rowKind (.str s :: rest) = .plain := by
+  unfold rowKind
+  simp [Cell.isBlank, h.1, h.2]
+
+theorem rowKind_blankRow : rowKind blankRow = .blankRow false := by
+  simp [rowKind, blankRow, Cell.isBlank, allSpace]
+
+theorem header_not_blank (t : TableVal) : allSpace (header t) = false := by
+  have hs : isSpace '*' = false := by decide
+  simp [header, allSpace, hs]
+
+theorem rowKind_hdr (ext : Ext) (sep : Char) (naRep : Str) (t : TableVal) (hwf : WF ext sep naRep t) :
+    rowKind (hdrRow t) = .tbl := by
+  unfold rowKind hdrRow
+  have hc : classify (header t) = some .table := by
+    unfold classify; simp [hwf.headerTable]
+  simp [Cell.isBlank, header_not_blank, hc]
+
+/-- every row of a written block after the `**` row starts with a plain first cell -/
+theorem block_tail_plain (ext : Ext) (sep : Char) (naRep : Str) (t : TableVal) (hwf : WF ext sep naRep t) :
+    ∃ ps, blockRows naRep t = hdrRow t :: ps ∧ ∀ p ∈ ps, rowKind p = .plain := by
+  have hdest : rowKind (destRow t) = .plain := rowKind_plain _ [] hwf.destsPlain
+  unfold blockRows
+  by_cases hc : t.columns = []
+  · exact ⟨[destRow t], by simp [hc], by simp [hdest]⟩
+  · simp only [hc, if_false]
+    by_cases ht : t.transposed = true
+    · rw [tableRows_transposed naRep t ht hwf.sameLen]
+      refine ⟨destRow t :: (List.range t.columns.length).map (lineRow naRep t), rfl, ?_⟩
+      intro p hp
+      rcases List.mem_cons.1 hp with rfl | hp
+      · exact hdest
+      · obtain ⟨j, hj, rfl⟩ := List.mem_map.1 hp
+        have hj' : j < t.columns.length := by simpa using hj
+        have hmem : t.columns.getD j dCol ∈ t.columns := by simp [List.getD_eq_getElem?_getD, hj']
+        exact rowKind_plain _ _ (hwf.firstTransposed ht _ hmem)
+    · have ht' : t.transposed = false := by simpa using ht
+      rw [tableRows_rowwise naRep t ht' hc]
+      refine ⟨destRow t :: strRow (t.columns.map (·.name)) :: strRow (t.columns.map (·.unit)) ::
+        dataRowsM naRep t, rfl, ?_⟩
+      obtain ⟨c0, cs0, hcs⟩ := List.exists_cons_of_ne_nil hc
+      have hfirst := hwf.firstRowwise ht' c0 (by simp [hcs])
+      intro p hp
+      simp only [List.mem_cons] at hp
+      rcases hp with rfl | rfl | rfl | hp
+      · exact hdest
+      · simp only [hcs, strRow, List.map_cons]; exact rowKind_plain _ _ hfirst.1
+      · simp only [hcs, strRow, List.map_cons]; exact rowKind_plain _ _ hfirst.2.1
+      · obtain ⟨i, hi, rfl⟩ := List.mem_map.1 hp
+        have hi' : i < t.nRows := by simpa using hi
+        have : (List.range t.columns.length).map (fun j => cellM naRep t i j) =
+            cellM naRep t i 0 :: (List.range cs0.length).map (fun j => cellM naRep t i (j + 1)) := by
+          simp [hcs, List.range_succ_eq_map, Function.comp]
+        rw [this]
+        have hc0 : cellM naRep t i 0 = .str (cellAt naRep t c0 0 i) := by simp [cellM, hcs]
+        rw [hc0]
+        exact rowKind_plain _ _ (hfirst.2.2 i hi')
+
+/-- the chunk (block + blank tail) written for a table -/
+def chunkOf (naRep : Str) (t : TableVal) : Chunk Row :=
+  ⟨hdrRow t, (blockRows naRep t).tail, blankRow, (blanksAfter t).tail⟩
+
+theorem chunkOf_spec (ext : Ext) (sep : Char) (naRep : Str) (t : TableVal) (hwf : WF ext sep naRep t) :
+    (chunkOf naRep t).rows = tableRows naRep t ++ tailBlanks t ∧
+    (chunkOf naRep t).block = blockRows naRep t ∧
+    (chunkOf naRep t).Good rowKind := by
+  obtain ⟨ps, hps, hplain⟩ := block_tail_plain ext sep naRep t hwf
+  obtain ⟨bs, hbs, hblank⟩ := blanksAfter_cons t
+  have e1 : (blockRows naRep t).tail = ps := by rw [hps]; rfl
+  have e2 : (blanksAfter t).tail = bs := by rw [hbs]; rfl
+  refine ⟨?_, ?_, ?_⟩
+  · rw [rows_split, hps, hbs]
+    simp [Chunk.rows, chunkOf, e1, e2]
+  · simp [Chunk.block, chunkOf, e1, hps]
+  · refine ⟨rowKind_hdr ext sep naRep t hwf, ?_, rowKind_blankRow, ?_⟩
+    · simp only [chunkOf, e1]; exact hplain
+    · simp only [chunkOf, e2]
+      intro x hx
+      rw [hblank x hx, rowKind_blankRow]; rfl
+
+/-! ## 8. the round trip -/
+
+theorem flatMap_congr' {α β} (l : List α) (f g : α → List β) (h : ∀ a ∈ l, f a = g a) :
+    l.flatMap f = l.flatMap g := by
+  induction l with
+  | nil => rfl
+  | cons a as ih =>
+    simp only [List.flatMap_cons]
+    rw [h a (by simp), ih (fun b hb => h b (List.mem_cons_of_mem _ hb))]
+
+/-- stage C for any well-formed table -/
+theorem makeTable_block (ext : Ext) (sep : Char) (naRep : Str) (t : TableVal) (hwf : WF ext sep naRep t)
+    (f : Fixer) (hf : f.errors = 0 ∧ f.warnings = 0) :
+    makeTable ext (blockRows naRep t) f = .ok (observe t, f) := by
+  unfold blockRows
+  by_cases hc : t.columns = []
+  · simp only [hc, if_true]
+    exact makeTable_empty ext naRep t hc hwf.nameNoStar hwf.destsBack f hf
+  · simp only [hc, if_false]
+    by_cases ht : t.transposed = true
+    · exact makeTable_transposed ext sep naRep t hwf ht hc f hf
+    · exact makeTable_rowwise ext sep naRep t hwf (by simpa using ht) hc f hf
+
+def readCfg (ext : Ext) : Blocks.Config := ⟨.pdtable, none, .raising, ext⟩
+
+theorem runBlocks_chunks (ext : Ext) (sep : Char) (naRep : Str) (ts : List TableVal)
+    (hwf : ∀ t ∈ ts, WF ext sep naRep t) (i : Nat) (f : Fixer) :
+    let r := Blocks.runBlocks (readCfg ext) (chunkBlocks i (ts.map (chunkOf naRep))) f
+    r.blocks.map (fun d => (d.ty, d.val)) = ts.map (fun t => (BT.table, Blocks.BlockVal.table (observe t))) ∧
+    r.issues = [] ∧ r.ending = .exhausted := by
+  induction ts generalizing i f with
+  | nil => simp [chunkBlocks, Blocks.runBlocks]
+  | cons t ts ih =>
+    have hspec := chunkOf_spec ext sep naRep t (hwf t (by simp))
+    have hmk := makeTable_block ext sep naRep t (hwf t (by simp)) f.reset ⟨rfl, rfl⟩
+    simp only [List.map_cons, chunkBlocks]
+    unfold Blocks.runBlocks
+    simp only [Blocks.accepts, readCfg, Bool.not_true, Bool.false_eq_true, if_false, Blocks.handle, hspec.2.1,
+      hmk, bind, Except.bind, pure, Except.pure]
+    have := ih (fun u hu => hwf u (List.mem_cons_of_mem _ hu)) (i + (chunkOf naRep t).rows.length) f.reset
+    simp only [readCfg] at this
+    simp [this]
+
+/-- **C01 — CSV write-then-read preserves every well-formed table bundle.**
+    For every `ext`, separator, marker-like missing-value representation and every finite sequence of tables
+    well formed for them: reading the written text delivers exactly the observed tables, in order, as TABLE
+    blocks and nothing else, reports no issue and ends normally. -/
+theorem csv_roundtrip (ext : Ext) (sep : Char) (naRep : Str) (ts : List TableVal)
+    (hwf : ∀ t ∈ ts, WF ext sep naRep t) :
+    let r := readCsv ext sep (writeCsv sep naRep ts)
+    r.blocks.map (fun d => (d.ty, d.val)) = ts.map (fun t => (BT.table, Blocks.BlockVal.table (observe t))) ∧
+    r.issues = [] ∧ r.ending = .exhausted := by
+  have hsep : sep ≠ '\n' ∨ ts = [] := by
+    cases ts with
+    | nil => exact Or.inr rfl
+    | cons t _ => exact Or.inl (hwf t (by simp)).sepOK
+  rcases hsep with hsep | rfl
+  · have hrows : readRows sep (writeCsv sep naRep ts) = (ts.map (chunkOf naRep)).flatMap Chunk.rows := by
+      rw [readRows_writeCsv sep naRep ts hsep (fun t ht => (hwf t ht).clean), List.flatMap_map]
+      apply flatMap_congr'
+      intro t ht
+      exact (chunkOf_spec ext sep naRep t (hwf t ht)).1.symm
+    have hseg : segment (readRows sep (writeCsv sep naRep ts)) = chunkBlocks 0 (ts.map (chunkOf naRep)) := by
+      rw [hrows]
+      apply run_chunks
+      intro c hc
+      obtain ⟨t, ht, rfl⟩ := List.mem_map.1 hc
+      exact (chunkOf_spec ext sep naRep t (hwf t ht)).2.2
+    unfold readCsv Blocks.parseBlocks
+    rw [hseg]
+    exact runBlocks_chunks ext sep naRep ts hwf 0 _
+  · simp [readCsv, writeCsv, unlines, readRows, linesOf, splitOn, Blocks.parseBlocks, segment, run, go, emit,
+      initSt, Blocks.runBlocks]
+
+end Pdt.C01
+
+namespace Pdt.C01
+open Pdt Pdt.Reader Pdt.Represent Pdt.Write
+
+/-- the `sep is None → pdtable.CSV_SEP` glue of `write_csv` / `read_csv`: with the package default the same
+    round trip holds (the default is a single character, currently `;`) -/
+theorem csv_roundtrip_default_sep (ext : Ext) (naRep : Str) (ts : List TableVal) (sepArg : Option Char)
+    (hwf : ∀ t ∈ ts, WF ext (sepArg.getD (Gen.csvSep.headD ';')) naRep t) :
+    let sep := sepArg.getD (Gen.csvSep.headD ';')
+    let r := readCsv ext sep (writeCsv sep naRep ts)
+    r.blocks.map (fun d => (d.ty, d.val)) = ts.map (fun t => (BT.table, Blocks.BlockVal.table (observe t))) ∧
+    r.issues = [] ∧ r.ending = .exhausted :=
+  csv_roundtrip ext _ naRep ts hwf
+
+/-- writing is a function of the table values alone: the model has no state to modify -/
+theorem write_pure (sep : Char) (naRep : Str) (ts : List TableVal) :
+    writeCsv sep naRep ts = unlines (ts.flatMap (tableLines sep naRep)) := rfl
 
 end Pdt.C01
